@@ -545,6 +545,8 @@ class Gen:
                 spec['pre'] = pre
         if self.loops:
             spec['pre'] = list(self.loops) + (spec.get('pre') or [])
+        if rng.random() < p.get('p_observe', 0.3):
+            spec['observe'] = rng.choice([1, 3, 7])       # a nosy user reads every getter at every k-th event
         if rng.random() < p['p_poke']:
             cands = [i['id'] for i in self.items if i['kind'] not in ('group',)]
             spec['poke'] = rng.sample(cands, min(len(cands), rng.choice([1, 2, 3])))
